@@ -544,7 +544,7 @@ func TestVerifC19ExpReal(t *testing.T) {
 		for k, g := range o.gauges {
 			gs[k] = vZ(g)
 		}
-		term := fmt.Sprintf("CExp %s %s %s %s %s %s", j.cfg.term(), vList(os), vList(ps), vC19Vec(o.tel.vec), vList(gs),
+		term := fmt.Sprintf("(CExp %s %s %s %s %s %s)", j.cfg.term(), vList(os), vList(ps), vC19Vec(o.tel.vec), vList(gs),
 			vList(append([]string{vZ(o.capGauge), vZ(0)}, func() []string {
 				r := make([]string, len(o.sends))
 				for i, k := range o.sends {
